@@ -17,6 +17,17 @@ if ! cargo build --offline -p vcheck -p vbuild -p vgen >"$LOG" 2>&1; then
   tail -30 "$LOG" >&2
   exit 2
 fi
+# a raw libFuzzer artifact (sanitizer report without an oracle failure) is replayed by its target
+if [ "${1:-}" = "--replay" ] && [[ "${2:-}" == */fuzz-artifacts-*/* ]]; then
+  T="$(basename "$(dirname "$2")")"; T="${T#fuzz-artifacts-}"
+  export CARGO_TARGET_DIR="$ROOT/fuzz/target"
+  if cargo +nightly fuzz run --fuzz-dir "$ROOT/fuzz" "$T" "$2" >"$ROOT/work/fuzz-replay.log" 2>&1; then
+    echo "replay: property holds on this case"; exit 0
+  fi
+  grep -m1 "^VIOLATION" "$ROOT/work/fuzz-replay.log" || echo "VIOLATION property=$ID replay=$2"
+  grep -m3 -E "ERROR: |panicked|SUMMARY" "$ROOT/work/fuzz-replay.log"
+  exit 1
+fi
 rm -f "$ROOT/work/fuzz-$ID.json"
 # replay files of earlier runs of this check are stale once it runs again
 [ $# = 0 ] && rm -f "$ROOT"/replays/"$ID"-*.json
